@@ -8,3 +8,5 @@ impl From<std::convert::Infallible> for Error { fn from(k: std::convert::Infalli
 //@@ endif
 // `Result::expect` needs `E: Debug` (the repo derives it; derives are dropped by R0)
 impl std::fmt::Debug for Error { fn fmt(&self, f: &mut std::fmt::Formatter<'_>) -> std::fmt::Result { f.write_str("Error") } }
+impl From<serde_json::Error> for Error { fn from(e: serde_json::Error) -> Error { unimplemented!() } }
+impl From<serde_urlencoded::ser::Error> for Error { fn from(e: serde_urlencoded::ser::Error) -> Error { unimplemented!() } }
